@@ -311,10 +311,14 @@ wait:
 			time.Sleep(10 * time.Millisecond)
 		}
 		res.info["port_release_ms_after_close"] = released
-		if released < 0 || released > 1000 {
+		if released < 0 {
 			res.ok = false
-			res.problems = append(res.problems, fmt.Sprintf("remote port %d still bound %d ms after the control connection was closed", rport, released))
+			res.problems = append(res.problems, fmt.Sprintf("remote port %d still bound 1500 ms after the server closed the timed-out control connection (peer silent, transport still up): the session's resources are not released", rport))
+		} else if released > 1000 {
+			res.ok = false
+			res.problems = append(res.problems, fmt.Sprintf("remote port %d released only %d ms after the control connection was closed", rport, released))
 		}
+		res.cases = append(res.cases, fmt.Sprintf("CRelease %s %s 1000", coqZ(closedAt), coqZ(released)))
 	}
 	lg.mu.Lock()
 	res.info["pong_ok"], res.info["pong_err"] = lg.ok, lg.bad
